@@ -10,6 +10,8 @@ import Csvq.Lemmas.Dml
 import Csvq.Model.Skeleton
 import Csvq.Gen.DmlFacts
 import Csvq.Ref.DmlFacts
+import Csvq.Model.Sort
+import Csvq.Gen.SortFacts
 namespace Csvq.C05
 open Csvq Csvq.Dml
 
@@ -1226,6 +1228,28 @@ theorem model_publish_targets_named_table (ts : Tables) (n : String) (t : Table)
         unfold lookupT
         simp only [he, if_false]
         exact ih t0 h
+
+/-! ## REPLACE's key equivalence, REGENERATED from lib/query/sort_value.go on every run (extract/sortfacts)
+
+  `replaceImpl` takes the key equivalence as a parameter; the correspondence driver instantiates it with
+  `SortVal.equiv` on `NewSortValue` of the key cells.  That this IS `SortValue.EquivalentTo` of the current source: -/
+
+/-- `SortValue.EquivalentTo` as translated from the source equals the model's `SortVal.equiv` -/
+theorem gen_replace_key_equiv (a b : SortVal) : Csvq.Gen.sortEquiv a.toSV b.toSV = a.equiv b := by
+  cases a <;> cases b <;> simp only [Csvq.Gen.sortEquiv, SortVal.toSV, SortVal.equiv] <;> (try simp) <;>
+    (try (rename_i x y; cases x <;> cases y <;> simp)) <;> (try (rename_i x _ _ _; cases x <;> simp <;> exact BEq.comm))
+
+/-- two INTEGER keys are equivalent exactly when they are the same integer — whatever their float images, so keys
+    beyond 2^53 that differ only in the low bits are different keys (seed C05-m14 compared the float images) -/
+theorem gen_integer_keys_exact (i j : Int) (f g : FVal) (s t : Bytes) :
+    Csvq.Gen.sortEquiv (SortVal.int i f s).toSV (SortVal.int j g t).toSV = (i == j) := by
+  rw [gen_replace_key_equiv]; rfl
+
+/-- 9007199254740993 and 9007199254740992 (same float64 image, 2^53) are different REPLACE keys, whatever float image
+    and text NewSortValue stored for them -/
+theorem gen_adjacent_big_keys_differ (f g : FVal) (s t : Bytes) :
+    Csvq.Gen.sortEquiv (SortVal.int 9007199254740993 f s).toSV (SortVal.int 9007199254740992 g t).toSV = false := by
+  rw [gen_integer_keys_exact]; decide
 
 /-! ## non-vacuity: the hypotheses are satisfiable and the operations do something -/
 
